@@ -101,8 +101,11 @@ def gen_limits(rng):
             lim[k] = [ud(rng, -40, 20), ud(rng, 30, 150)]
         else:
             lim[k] = [shape_num(rng, a) if rng.random() < 0.5 else 0, shape_num(rng, b)]
-    if rng.random() < 0.2:
-        lim["zz"] = "ignored"          # keys outside LIMITS_DEFAULT are never looked at
+    if rng.random() < 0.25:
+        lim["zz"] = "ignored"          # keys outside LIMITS_DEFAULT are never looked at ...
+        items = list(lim.items())
+        rng.shuffle(items)             # ... wherever they stand in the dict (its order must not matter)
+        lim = dict(items)
     return lim
 
 
